@@ -133,6 +133,23 @@ def exhaustive_tables() -> List[dict]:
     return out
 
 
+def nested_tables() -> List[dict]:
+    """root -> [W1, G, W2] with W1 -> (F, K) and W2 -> (H[, J]): nested parts separated by an outward sibling, every
+    elaborate outcome on F, K, G and H (a prune or replacement from a nested frame must stop at its own nesting)."""
+    out = []
+    els = [None, ["seq", []], ["one", 15], ["seq", [15, "next"]], ["raise", 9]]
+    for w2 in ([13], [13, 14]):
+        for eF, eK, eG, eH in itertools.product(els, repeat=4):
+            items = [{"id": 0, "kind": "thing", "uw": ["tuple", [1, 12, 2]]},
+                     {"id": 1, "kind": "thing", "uw": ["tuple", [10, 11]]},
+                     {"id": 2, "kind": "thing", "uw": ["tuple", w2]},
+                     {"id": 10, "kind": "frame", "el": eF, "hide": False}, {"id": 11, "kind": "frame", "el": eK, "hide": False},
+                     {"id": 12, "kind": "frame", "el": eG, "hide": False}, {"id": 13, "kind": "frame", "el": eH, "hide": False},
+                     {"id": 14, "kind": "frame", "el": None, "hide": False}, {"id": 15, "kind": "frame", "el": None, "hide": False}]
+            out.append({"k": "env", "x": 0, "wc": False, "items": items})
+    return out
+
+
 def guard_cases() -> List[dict]:
     out = []
     # linear cycles of length 1..3 and long chains around the 100 threshold
@@ -324,6 +341,8 @@ class C10(PropCheck):
         if tier == "quick":
             ex = rng.sample(ex, 900)
         cand += ex
+        nt = nested_tables()
+        cand += nt if tier != "quick" else rng.sample(nt, 350)
         n = 700 if tier == "quick" else 12000
         for _ in range(n):
             cand.append(rand_env(rng, rng.randint(1, 5), rng.randint(1, 4), rng.randint(0, 2),
